@@ -16,10 +16,22 @@ import (
 //
 // Only the first CEA decides the outcome of the handshake; duplicates and
 // late answers are ignored. errc must be buffered so that reporting a
-// failure never blocks the connection's reader.
+// failure never blocks the connection's reader. With a nil errc the outcome
+// is reported to the handshake of the connection the CEA arrived on.
 func handleCEA(sm *StateMachine, errc chan error) diam.HandlerFunc {
-	var once sync.Once
+	var defaultOnce sync.Once
 	return func(c diam.Conn, m *diam.Message) {
+		// The handler is shared by all connections of the state machine:
+		// without a channel of its own it reports to the handshake of the
+		// connection the CEA arrived on.
+		errc, once := errc, &defaultOnce
+		if errc == nil {
+			st := clientConnStateOf(c)
+			if st == nil {
+				return
+			}
+			errc, once = st.errc, &st.once
+		}
 		once.Do(func() {
 			cea := new(smparser.CEA)
 			if err := cea.Parse(m, smparser.Client); err != nil {
